@@ -11,6 +11,8 @@ CONSTANTS MaxFiles,      \* bound on the number of input files of a definition
           Runtimes,      \* subset of {"docker", "singularity"}
           RootIds,       \* subset of 1..3, see RootOf
           WithBlank,     \* include a directory whose name contains a blank
+          ListWithF,     \* combine the list-of-files field with the single-file fields
+          ListPlain,     \* list-of-files definitions only without output field, forward order
           Shard, NShards
 
 VARIABLES ff, fg, fl, fo, ord, rt, rid
@@ -48,15 +50,18 @@ StrFld == Fld("s", "str", "-s", FALSE, "any", <<>>, "word")
 
 NFiles(f) == IF f.kind = "none" THEN 0 ELSE Len(f.files)
 LList == SetToSeq(L1Opts \cup L2Opts \cup {None})
-MyL   == { LList[i] : i \in { j \in 1..Len(LList) : j % NShards = Shard } }
+FList == SetToSeq(FOpts \cup {None})
+MyFLs == { x \in { << i, j >> : i \in 1..Len(FList), j \in 1..Len(LList) } : (x[1] + x[2]) % NShards = Shard }
 
-Init == /\ ff \in FOpts \cup {None}
+Init == /\ \E x \in MyFLs : ff = FList[x[1]] /\ fl = LList[x[2]]
         /\ fg \in GOpts \cup {None}
-        /\ fl \in MyL
         /\ NFiles(ff) + NFiles(fg) + NFiles(fl) \in 1..MaxFiles
         /\ fg.kind # "none" => ff.kind # "none"
+        /\ ListWithF \/ fl.kind = "none" \/ ff.kind = "none"
+        /\ fg.kind = "none" \/ fl.kind = "none"       \* at most two file-bearing fields
         /\ fo \in {OutFld, None}
         /\ ord \in Orders
+        /\ (ListPlain /\ fl.kind # "none") => (fo = None /\ ord = "fwd")
         /\ rt \in Runtimes
         /\ rid \in RootIds
 Next == FALSE /\ UNCHANGED vars
@@ -74,23 +79,31 @@ C == [ exe    |-> "tool",
        tag    |-> IF rt = "docker" THEN "1" ELSE "latest" ]
 
 Case ==
-  LET c == C IN
+  LET c  == C
+      bb == BlankInBinds(c)
+      ba == BlankInArgv(c)
+      ip == IdealPrefix(c)
+      ia == IdealContainerArgv(c)
+      in == IdealNativeArgv(c)
+  IN
   [ c        |-> c,
     rootstr  |-> Render(PathText(c.root)) \o (IF RootOf(rid).slash THEN "/" ELSE ""),
     rootdflt |-> RootOf(rid).dflt,
     bflags   |-> BindFlags(rt),
     wflags   |-> WorkDirFlags(rt),
     open     |-> { Render(PathText(d)) : d \in OpenDirs(c) },
-    native   |-> IdealNativeArgv(c),
-    prefix   |-> IdealPrefix(c),
-    argv     |-> IdealContainerArgv(c),
-    \* named as-built references
+    native   |-> in,
+    prefix   |-> ip,
+    argv     |-> ia,
+    \* named as-built references (equal to the design when no blank occurs: theorem)
     haslist  |-> HasList(c),
     listerr  |-> ListCrashErr,
-    bsplit   |-> [prefix |-> BlankSplitPrefix(c), argv |-> BlankSplitContainerArgv(c),
-                  native |-> BlankSplitNativeArgv(c)],
-    blankb   |-> BlankInBinds(c),
-    blanka   |-> BlankInArgv(c) ]
+    bsplit   |-> IF bb \/ ba
+                 THEN [prefix |-> BlankSplitPrefix(c), argv |-> BlankSplitContainerArgv(c),
+                       native |-> BlankSplitNativeArgv(c)]
+                 ELSE [same |-> TRUE],
+    blankb   |-> bb,
+    blanka   |-> ba ]
 Emit == PrintT(ToJson(Case))
 
 Theorems == LET c == C IN SpecTheorems(c)
